@@ -89,6 +89,9 @@ type Interp struct {
 	// CallModel, when it answers, replaces the evaluation of a call (a harness
 	// standing in for a component it supplies itself, e.g. the token source).
 	CallModel func(callee *ssa.Function, args []Val, fr *frame) (Val, bool)
+	// TextModel, when it answers, is the text a strconv.Append* call appends
+	// (an opaque element text standing for the formatted value).
+	TextModel func(call *ssa.Call, callee *ssa.Function, fr *frame) (string, bool)
 	// OnAppend observes every append (final pass only): the call, the appended
 	// slice value and, when its length is known, its elements.
 	OnAppend func(call *ssa.Call, appended Val, elems []Val, fr *frame)
